@@ -92,7 +92,7 @@ def udp_scenario(ctx, backend, sockets, rnd, trace, run_id):
             n += 7
         drv.quiet(0.3)
         if not t.alive():
-            raise ToolError("tracker died: " + t.stderr()[-300:])
+            trace.append({"ev": "tracker_died", "stderr": t.stderr()[-600:]})
     finally:
         if drv:
             drv.close()
